@@ -57,9 +57,11 @@ const (
 	opGetMD                // GetMetadata / ScopeComplete().GetMetadata
 	opDelMD                // DeleteMetadata
 	opHRead                // read through a retained handle (direct oracle only)
+	opDRead                // quiescent: disk store ScopeComplete().Open + ReadAll
+	opDGetMD               // quiescent: disk store GetMetadata
 )
 
-var opNames = [...]string{"Create", "MarkComplete", "Delete", "Read", "Has", "Listed", "SetMD", "GetMD", "DelMD", "HandleRead"}
+var opNames = [...]string{"Create", "MarkComplete", "Delete", "Read", "Has", "Listed", "SetMD", "GetMD", "DelMD", "HandleRead", "DiskRead", "DiskGetMD"}
 
 func (k opKind) String() string { return opNames[k] }
 
@@ -96,6 +98,11 @@ type opIn struct {
 	MD    int    `json:"md"`              // metadata kind index
 	Val   int32  `json:"val,omitempty"`   // SetMD: value id
 	Scope int    `json:"scope,omitempty"` // 0 any, 1 complete
+	// Tol: the operation overlapped a successful Delete of its key. Which "not
+	// available" answer a reader racing with a Delete gets is not part of the
+	// property: when linearized while the key still exists it may see the
+	// half-deleted blob (out of scope / any metadata value).
+	Tol bool `json:"overlaps_delete,omitempty"`
 }
 
 type opOut struct {
@@ -180,7 +187,7 @@ func (c modelCfg) step1(s kstate, in opIn, out opOut) []kstate {
 				return same
 			}
 		case rOutOfScope:
-			if s.Ph == phIncomplete {
+			if s.Ph == phIncomplete || (in.Tol && exists) {
 				return same
 			}
 		}
@@ -188,6 +195,9 @@ func (c modelCfg) step1(s kstate, in opIn, out opOut) []kstate {
 		wantStore := exists
 		wantScope := exists && (in.Scope == scopeAny || s.Ph == phComplete)
 		if out.InStore == wantStore && out.InScope == wantScope {
+			return same
+		}
+		if in.Tol && exists && out.InStore && !out.InScope && in.Scope == scopeComplete {
 			return same
 		}
 	case opListed:
@@ -220,11 +230,44 @@ func (c modelCfg) step1(s kstate, in opIn, out opOut) []kstate {
 				return same
 			}
 		}
+	case opDRead:
+		// after the flushers drained, the disk store alone must hold every
+		// completed blob; an incomplete blob may live in memory only.
+		switch out.Res {
+		case rOK:
+			if s.Ph == phComplete && out.Gen == s.Gen {
+				return same
+			}
+		case rNotFound:
+			if s.Ph != phComplete {
+				return same
+			}
+		case rOutOfScope:
+			if s.Ph == phIncomplete {
+				return same
+			}
+		}
+	case opDGetMD:
+		switch {
+		case s.Ph == phIncomplete:
+			return same
+		case s.Ph == phAbsent:
+			if out.Res == rNotFound {
+				return same
+			}
+		case out.Res == rOK:
+			if out.Found == (s.MD[in.MD] != 0) && (!out.Found || out.Val == s.MD[in.MD]) {
+				return same
+			}
+		}
 	case opGetMD:
 		switch out.Res {
 		case rOK:
 			if exists && (in.Scope == scopeAny || s.Ph == phComplete) {
 				if out.Found == (s.MD[in.MD] != 0) && (!out.Found || out.Val == s.MD[in.MD]) {
+					return same
+				}
+				if in.Tol {
 					return same
 				}
 			}
@@ -233,7 +276,7 @@ func (c modelCfg) step1(s kstate, in opIn, out opOut) []kstate {
 				return same
 			}
 		case rOutOfScope:
-			if in.Scope == scopeComplete && s.Ph == phIncomplete {
+			if in.Scope == scopeComplete && (s.Ph == phIncomplete || (in.Tol && exists)) {
 				return same
 			}
 		}
@@ -261,6 +304,25 @@ func symptom(s kstate, in opIn, out opOut) string {
 		case !exists && out.Res == rOutOfScope:
 			return "key-resurfaced"
 		}
+	case opDRead:
+		switch {
+		case s.Ph == phComplete && out.Res == rOK:
+			return "disk-wrong-generation"
+		case s.Ph == phComplete:
+			return "disk-missing-completed-blob"
+		case s.Ph == phAbsent:
+			return "disk-leaked-deleted-key"
+		default:
+			return "disk-incomplete-blob-marked-complete"
+		}
+	case opDGetMD:
+		if s.Ph == phAbsent {
+			return "disk-leaked-deleted-key"
+		}
+		if out.Res == rOK {
+			return "disk-metadata-stale"
+		}
+		return "disk-missing-completed-blob"
 	case opGetMD:
 		switch {
 		case out.Res == rOK && exists && (in.Scope == scopeAny || s.Ph == phComplete):
@@ -312,6 +374,21 @@ func symptom(s kstate, in opIn, out opOut) string {
 	return "unexpected-result-" + in.Kind.String() + "-" + out.Res.String()
 }
 
+// symptomClass folds the symptoms into the three ways the property can break.
+func symptomClass(sym string) string {
+	switch sym {
+	case "blob-lost", "metadata-stale", "blob-wrong-generation", "disk-missing-completed-blob", "disk-metadata-stale",
+		"disk-wrong-generation", "create-overwrote-existing-key", "retained-handle-broken", "blob-unreadable-after-open":
+		return "completed-blob-or-metadata-update-lost"
+	case "key-resurfaced", "create-blocked", "disk-leaked-deleted-key":
+		return "deleted-key-resurfaced-or-blocks-recreation"
+	case "blob-corrupt", "incomplete-blob-served-as-complete", "disk-incomplete-blob-marked-complete", "disk-blob-corrupt",
+		"retained-handle-corrupt", "retained-handle-wrong-generation":
+		return "wrong-bytes-served"
+	}
+	return sym
+}
+
 // ---------------------------------------------------------------------------
 // History and porcupine glue.
 // ---------------------------------------------------------------------------
@@ -327,6 +404,7 @@ type hop struct {
 	// reads: [Call, Ret] covers only the Open; ReadEnd is the stamp after the
 	// last byte was read (the handle phase, judged by the direct oracle).
 	ReadEnd int64  `json:"read_end,omitempty"`
+	Ref     int    `json:"ref,omitempty"` // HandleRead: id of the open
 	Note    string `json:"note,omitempty"`
 }
 
